@@ -17,12 +17,14 @@ META = {
     'level_text': 'Proved for every well-formed type tree of any depth: C28_cass_parse_codec (Cassandra\'s descriptor of the type parses to a '
                   'class with the type\'s codec structure and the specified CQL name, vectors written with the marshal class name), '
                   'C28_cass_parse_partial (same CQL name, vector-free trees), C28_cass_parse_refuted (the full clause fails on vectors: open '
-                  'finding C28-1), C28_cql_roundtrip_print (printing the parsed hierarchy of a CQL name gives the canonical name), '
-                  'C28_strip_frozen (exactly the frozen markers are removed). Model tied to cassandra/cqltypes.py by differential execution.',
-    'level_note': 'Partial: the direction CQL string -> python list (re.Scanner + ast.literal_eval in cqltype_to_python) is modelled and '
-                  'compared with the driver but not covered by a theorem. Trusted: Coq kernel, the transcription of Cassandra\'s '
-                  'AbstractType.toString / CQL3Type names (the frozen marker of tuples/UDTs follows the driver), the harness; re.Scanner, '
-                  'ast.literal_eval, repr(list) and the class registry are modelled by hand; every case starts from a fresh registry.',
+                  'finding C28-1), C28_cql_roundtrip (cqltype_to_python then python_to_cqltype on every printed CQL type string, any number of '
+                  'double-quoted UDT names, is the identity up to the blank after commas), C28_strip_frozen_string / C28_strip_frozen '
+                  '(exactly the frozen markers are removed). Model tied to cassandra/cqltypes.py by differential execution, incl. histories '
+                  'of successive parses sharing the registry and the UDT cache.',
+    'level_note': 'Trusted: Coq kernel, the transcription of Cassandra\'s AbstractType.toString / CQL3Type names (the frozen marker of '
+                  'tuples/UDTs follows the driver; UDT names compared unquoted on the descriptor side), the harness; re.Scanner, '
+                  'ast.literal_eval, repr(list) and the class registry are modelled by hand. The model parses each descriptor from the '
+                  'registry as it is after import; histories without reset are compared step by step and checked by the oracle.',
     'design_ref': 'DESIGN.md section 4, C28',
 }
 
@@ -48,7 +50,9 @@ Definition chk_all (b : bool) : bool := b.
 
 LEAVES = ['int', 'text', 'float']
 KS_POOL = ['ks', 'ks1', 'K_2', 'system', '42', 'UTF8Type', 'ListType', 'a', '7e3']
-NAME_POOL = ['abcd', 'address', 'My Type', 'a-b', 'T1', 'x', 'point2d', 'int', 'phone_no', 'ip4', 'hi', 'A.B:c', 'ppp', '0x1']
+NAME_POOL = ['abcd', 'address', 'My Type', 'a-b', 'T1', 'x', 'point2d', 'int', 'phone_no', 'ip4', 'hi', 'A.B:c', 'ppp', '0x1',
+             'A b', 'C, d', 'x<y', 'p>q', 'frozen<z>', 'Q', 'a  b,<c>']
+QUOTED_NAMES = ['A b', 'C, d', 'x<y', 'p>q', 'frozen<z>', 'My Type']
 FIELD_POOL = ['a', 'b', 'street', 'zip_code', 'Zip Code', 'f1', 'abc', 'x-y', 'q', '1st']
 DIM_POOL = ['1', '2', '3', '4', '16', '128', '1536', '0', '10']
 
@@ -110,6 +114,92 @@ def rand_tree(rng, d, top=True):
     return ('frozen', inner)
 
 
+def quoted_trees(tier):
+    """CQL type strings with two or three double-quoted (case-sensitive) UDT names, with frozen<...> / brackets / commas between
+    them and inside the quotes"""
+    U = lambda n: ('udt', 'ks1', n, ['a'], [S('int')])
+    out = []
+    for a, b in itertools.permutations(QUOTED_NAMES, 2):
+        out += [('tuple', [U(a), ('frozen', ('list', S('int'))), U(b)]), ('map', U(a), U(b)),
+                ('map', U(a), ('frozen', ('set', U(b)))), ('list', ('tuple', [U(a), U(b), U(a)])),
+                ('map', ('frozen', ('list', U(a))), ('vector', U(b), '2'))]
+    return out if tier == 'thorough' else out[::4]
+
+
+def vary(rng, t):
+    """a tree that differs from t in one detail (a leaf type, a vector dimension, a UDT name or its field names)"""
+    k = t[0]
+    if k == 'simple':
+        return S(rng.choice([n for n in ('int', 'text', 'float', 'double', 'bigint', 'uuid') if n != t[1]]))
+    if k in ('list', 'set', 'frozen', 'reversed'):
+        return (k, vary(rng, t[1]))
+    if k == 'map':
+        return ('map', vary(rng, t[1]), t[2]) if rng.random() < 0.5 else ('map', t[1], vary(rng, t[2]))
+    if k == 'vector':
+        return ('vector', vary(rng, t[1]), t[2]) if rng.random() < 0.7 else ('vector', t[1], str(int(t[2]) + 1))
+    if k == 'tuple':
+        if not t[1]:
+            return ('tuple', [S('int')])
+        i = rng.randrange(len(t[1]))
+        return ('tuple', [vary(rng, x) if j == i else x for j, x in enumerate(t[1])])
+    if k == 'udt':
+        r = rng.random()
+        if r < 0.25:
+            return ('udt', t[1], t[2] + '2', t[3], t[4])
+        if r < 0.5 and t[3]:
+            return ('udt', t[1], t[2], [f + '_' for f in t[3]], t[4])
+        if t[4]:
+            i = rng.randrange(len(t[4]))
+            return ('udt', t[1], t[2], t[3], [vary(rng, x) if j == i else x for j, x in enumerate(t[4])])
+        return ('udt', t[1], t[2], ['n'], [S('int')])
+    return t
+
+
+def histories(rng, n):
+    """successive descriptor parses in ONE process without resetting the registry / UserType._cache: the same keyspace.name is
+    defined again with different field types / names (type dropped and re-created, or several tables read in turn)"""
+    V = lambda e, d='3': ('vector', S(e), d)
+    U = lambda name, fn, ft: ('udt', 'ks1', name, list(fn), list(ft))
+    P = lambda name, fn=('x', 'y'): U(name, fn, [S('double'), S('double')])
+    out = [
+        [U('emb', ['id', 'v'], [S('int'), V('float')]), U('emb', ['id', 'v'], [S('int'), V('double')])],
+        [U('emb', ['id', 'v'], [S('int'), V('float')]), U('emb', ['id', 'v'], [S('int'), V('double')]), U('emb', ['id', 'v'], [S('int'), V('float')])],
+        [U('shape', ['id', 'p'], [S('int'), P('point')]), U('shape', ['id', 'p'], [S('int'), P('label')])],
+        [U('shape', ['id', 'p'], [S('int'), P('point')]), U('shape', ['id', 'p'], [S('int'), P('point', ('lat', 'lon'))])],
+        [U('rec', ['a'], [('list', S('int'))]), U('rec', ['a'], [('list', S('text'))])],
+        [U('rec', ['a'], [S('int')]), U('rec', ['b'], [S('int')]), U('rec', ['a', 'b'], [S('int'), S('int')])],
+        [U('rec', ['a'], [V('float', '3')]), U('rec', ['a'], [V('float', '4')])],
+        [('list', U('emb', ['v'], [('tuple', [V('float', '2')])])), ('map', S('int'), U('emb', ['v'], [('tuple', [V('double', '2')])]))],
+        [U('o', ['f'], [('frozen', ('list', U('i', ['v'], [V('float')])))]), U('o', ['f'], [('frozen', ('list', U('i', ['v'], [V('bigint')])))])],
+    ]
+    for _ in range(n):
+        nf = rng.randint(1, 3)
+        base = U(rng.choice(['emb', 'rec', 'My Type']), ['f%d' % i for i in range(nf)],
+                 [rand_tree(rng, rng.choice([1, 2, 2])) for _ in range(nf)])
+        base = ('udt', 'ks1', base[2], base[3], [rename_ks(x) for x in base[4]])
+        h = [base]
+        for _ in range(rng.randint(1, 2)):
+            h.append(vary(rng, h[-1]) if rng.random() < 0.8 else h[0])
+        out.append(h)
+    return out
+
+
+def rename_ks(t):
+    """histories keep keyspaces and type names apart (a type named like its keyspace is a different, documented hazard)"""
+    k = t[0]
+    if k == 'udt':
+        return ('udt', 'ks2', t[2] if t[2] not in ('ks1', 'ks2') else 'n', t[3], [rename_ks(x) for x in t[4]])
+    if k in ('list', 'set', 'frozen', 'reversed'):
+        return (k, rename_ks(t[1]))
+    if k == 'vector':
+        return ('vector', rename_ks(t[1]), t[2])
+    if k == 'map':
+        return ('map', rename_ks(t[1]), rename_ks(t[2]))
+    if k == 'tuple':
+        return ('tuple', [rename_ks(x) for x in t[1]])
+    return t
+
+
 def malformed_descriptors(rng, trees, n):
     out = ['', '(', ')', '()', 'Int32Type', 'Int32Type()', 'Int32Type(UTF8Type)', 'ListType', 'ListType(', 'ListType(Int32Type',
            'ListType(Int32Type))', 'ListType(3)', 'ListType()', 'MapType(Int32Type)', '3', '007', '1_000', '1__0', '_1', '1_',
@@ -169,6 +259,10 @@ def cql_form(t, **kw):
     return T.spec_cql(q(t), **kw)
 
 
+def rng_sep(i):
+    return ', ' if i % 2 else ','
+
+
 def nosp(s):
     return s.replace(' ', '') if isinstance(s, str) else s
 
@@ -183,12 +277,13 @@ def classify_name_mismatch(got, want):
     return 'other'
 
 
-def oracle_tree(ctx, C, fresh, t, report=True):
+def oracle_tree(ctx, C, fresh, t, reset=True):
     """the statement, on the implementation.  Returns list of (key, what, expected, actual)."""
     bad = []
     desc = T.spec_cass(t)
     want = T.spec_cql(t)
-    fresh.reset()
+    if reset:
+        fresh.reset()
     try:
         c = C.lookup_casstype(desc)
     except Exception as e:
@@ -223,7 +318,8 @@ def oracle_tree(ctx, C, fresh, t, report=True):
             got_s = e
         if not isinstance(got_s, str) or nosp(got_s) != nosp(want_s):
             bad.append(('strip_frozen', 'strip_frozen(%r) = %r, expected %r' % (s, got_s, want_s), want_s, repr(got_s)[:300]))
-    fresh.reset()
+    if reset:
+        fresh.reset()
     return bad
 
 
@@ -243,9 +339,10 @@ def udt_names(t):
     return out
 
 
-def parse_case(C, fresh, s, with_prints=True):
+def parse_case(C, fresh, s, with_prints=True, reset=True):
     """drive lookup_casstype and the printers of its result; returns the Gallina arguments `r cql prints`"""
-    fresh.reset()
+    if reset:
+        fresh.reset()
     r = T.call(C.lookup_casstype, s)
     if r[0] == 'ok' and isinstance(r[1], type):
         c = r[1]
@@ -254,7 +351,8 @@ def parse_case(C, fresh, s, with_prints=True):
         cql = cf = cs = None
     g = '%s %s %s' % (T.gpres(r, C), T.gopt(cql), '(Some (%s, %s))' % (T.gopt(cf), T.gopt(cs)) if with_prints else 'None')
     summary = {'descriptor': s[:300], 'result': r[0] if r[0] != 'ok' else T.obs(C, r[1]), 'cql': cql, 'cass_full': cf}
-    fresh.reset()
+    if reset:
+        fresh.reset()
     return g, r, summary
 
 
@@ -280,7 +378,10 @@ def malformed_cql(rng, goods, n):
     out = ['', 'int', 'list<int>', 'map<text,int>', 'map<text , int>', 'list<>', 'list<int', 'list<int>>', '<int>', 'a b', 'a,,b', 'a,', ',a',
            'frozen', 'frozen<>', 'frozen<int>', 'list<frozen>', 'frozen<frozen<list<int>>>', 'map<frozen<list<int>>, frozen<set<text>>>',
            'tuple<int, frozen<tuple<text, frozen<list<int>>>>, frozen<map<int, int>>>', 'list<int>, set<int>', 'frozenx<int>', 'xfrozen<frozenlist>',
-           'frozen_t<int>', 'vector<float, 3>', 'a.b', 'list<a-b>', 'frozen<frozen>', 'frozen<frozen<>>', 'x<y<z>,w>']
+           'frozen_t<int>', 'vector<float, 3>', 'a.b', 'list<a-b>', 'frozen<frozen>', 'frozen<frozen<>>', 'x<y<z>,w>',
+           '"A b"', 'list<"A b">', 'map<"A b", frozen<"C d">>', 'tuple<"A b", frozen<list<int>>, "C d">', 'map<"a","b">', '"a""b"',
+           '"a', 'a"', 'list<"a>', 'list<"a">"', '""', 'x"y"', '"y"x', '"it\'s"', '"a\\b"', '"a\nb"', 'frozen<"frozen">', '"frozen"<int>',
+           'map<"<", ">">', 'map<",", frozen<"frozen<">>', 'tuple<"a", "b", "c", frozen<"d">>']
     for _ in range(n):
         s = rng.choice(goods)
         i = rng.randrange(len(s) + 1)
@@ -338,6 +439,7 @@ def run(ctx):
         rest = [t for t in ex if T.depth(t) > 1]
         ex = small + ctx.rng.sample(rest, min(len(rest), 450))
     trees += ex
+    trees += quoted_trees(ctx.tier)
     nrand = 150 if ctx.tier == 'quick' else 3000
     for _ in range(nrand):
         trees.append(rand_tree(ctx.rng, ctx.rng.choice([2, 3, 3, 4, 4])))
@@ -363,16 +465,35 @@ def run(ctx):
         ctx.case(key, nontrivial=d >= 1, sample={'tree': t, 'descriptor': desc, 'parsed': summary['result'], 'cql_name': summary['cql']} if d >= 2 else None)
         for (k, what, exp, act) in bad:
             ctx.violation(k, what, case={'tree': t}, expected=exp, actual=act,
-                          theorem='C28_cass_parse_partial' if k.startswith('cass_parse') else 'C28_cql_roundtrip_print' if k == 'cql_roundtrip' else 'C28_strip_frozen')
+                          theorem='C28_cass_parse_partial' if k.startswith('cass_parse') else 'C28_cql_roundtrip' if k == 'cql_roundtrip' else 'C28_strip_frozen')
         cases.append('chk_tree %s %s %s %s %s' % (T.gty(t), T.gs(desc), T.gs(T.spec_cql(t)), T.gs(T.spec_cql(t, fz=False)), g))
         meta.append(('tree', t, summary))
-    # CQL strings of the trees whose UDT names are plain words (modelled grammar) + malformed ones
+    # histories: successive parses sharing the registry and the UDT cache; every parse must satisfy the statement on its own
+    for h in histories(ctx.rng, 25 if ctx.tier == 'quick' else 400):
+        fresh.reset()
+        for i, t in enumerate(h):
+            bad = oracle_tree(ctx, C, fresh, t, reset=False)
+            desc = T.spec_cass(t)
+            g, r, summary = parse_case(C, fresh, desc, with_prints=False, reset=False)
+            ctx.count('stream', 'history_step')
+            ctx.count('history_len', len(h)) if i == 0 else None
+            ctx.case(['history', repr(h[:i + 1])], nontrivial=i >= 1,
+                     sample={'history': h, 'step': i, 'parsed': summary['result']} if i == 1 and len(ctx.samples) < 4 else None)
+            for (k, what, exp, act) in bad:
+                ctx.violation('history.' + k, 'parse %d of a history sharing the UDT cache: %s' % (i + 1, what), case={'history': h, 'step': i},
+                              expected=exp, actual=act, kind='history', theorem='C28_cass_parse_partial')
+            cases.append('chk_tree %s %s %s %s %s' % (T.gty(t), T.gs(desc), T.gs(T.spec_cql(t)), T.gs(T.spec_cql(t, fz=False)), g))
+            meta.append(('history', h[:i + 1], summary))
+    fresh.reset()
+    # CQL strings of the trees (plain words and double-quoted names) + malformed ones
     goods = []
-    for t in (trees[:60] + trees[-150:] if ctx.tier == 'quick' else trees[:4000]):
+    for t in (trees[:60] + trees[-230:] if ctx.tier == 'quick' else trees[:4000] + trees[-3200:]):
         if all(re.match(r'^[A-Za-z0-9_]+$', n) and n != 'frozen' for n in udt_names(t)):
             goods.append(T.spec_cql(t))
             if len(goods) % 3 == 0:
                 goods.append(T.spec_cql(t, sep=','))
+        elif all(not any(ch in n for ch in '"\'\\\n') for n in udt_names(t)):
+            goods.append(cql_form(t, sep=rng_sep(len(goods))))
     cqls = list(dict.fromkeys(goods + malformed_cql(ctx.rng, goods or ['int'], 120 if ctx.tier == 'quick' else 1500)))
     for s in cqls:
         g, g2, summary = cql_case(C, s)
@@ -398,8 +519,8 @@ def run(ctx):
         for i in bad[:12]:
             kind, x, summary = meta[i]
             model = None
-            if kind in ('tree', 'desc'):
-                s = T.spec_cass(x) if kind == 'tree' else x
+            if kind in ('tree', 'desc', 'history'):
+                s = T.spec_cass(x) if kind == 'tree' else T.spec_cass(x[-1]) if kind == 'history' else x
                 try:
                     model = ctx.coq_eval(['TypeDesc'], ['cass_parse %s' % T.gs(s),
                                                         'match cass_parse %s with POk c => (option_map show (drv_cql c), option_map show (drv_cass true c)) | _ => (None, None) end' % T.gs(s)], prelude=T.CHAR_PRELUDE)
@@ -441,6 +562,19 @@ def replay(ctx, rp):
         for k, what, exp, act in bad:
             print('  %s: %s' % (k, what))
         hit = [b for b in bad if b[0] == rp.get('key')] or bad
+        print(('VIOLATION property=C28 replay=%s' % ctx.replay_path) if hit else 'not reproduced')
+        return 1 if hit else 0
+    if 'history' in case:
+        h = [tuplify(x) for x in case['history']]
+        fresh.reset()
+        hit = []
+        for i, t in enumerate(h):
+            bad = oracle_tree(ctx, C, fresh, t, reset=False)
+            print('parse %d: %s' % (i + 1, T.spec_cass(t)))
+            for k, what, exp, act in bad:
+                print('  %s: %s' % (k, what))
+            hit += [b for b in bad if 'history.' + b[0] == rp.get('key')]
+        fresh.reset()
         print(('VIOLATION property=C28 replay=%s' % ctx.replay_path) if hit else 'not reproduced')
         return 1 if hit else 0
     for k in ('desc', 'cql'):
